@@ -34,7 +34,7 @@ var c13Grid = []string{
 	"9007199254740991", "9007199254740992", "9007199254740993", "-9007199254740993",
 	"9223372036854775807", "9223372036854775806", "-9223372036854775807", "-9223372036854775808", "4611686018427387904", "3037000500", "-3037000500",
 	"9223372036854775808", "18446744073709551616", "-9223372036854775809",
-	"0.5", "-0.5", "1.5", "2.5", "-2.5", "0.1", "0.2", "0.3", "1e0", "1.0", "-0.0", "3.0e0", "1e2", "2.0",
+	"0.5", "-0.5", "1.5", "2.5", "-2.5", "0.1", "0.2", "0.3", "1e0", "1E2", "25E-1", "15E+1", "1.0", "-0.0", "3.0e0", "1e2", "2.0",
 	"1e308", "-1e308", "1.7976931348623157e308", "5e-324", "-5e-324", "1e-300", "1e300", "1e19", "9.223372036854775808e18", "1e-10", "123456789.123456789",
 	"1e400", "-1e400", "1e-400", "1234567890123456789012345678901234567890", "0.1234567890123456789012345678901234567890",
 }
@@ -665,6 +665,9 @@ func runC13(c *h.Ctx) {
 		wantErr   bool
 		want      string
 	}{
+		{"(-$[*]) ? (@ < -1)", `[1,2,3]`, false, "[#-2 | #-3]"}, {"(-$[*]) ? (@ != -2)", `[1,2,3]`, false, "[#-1 | #-3]"}, {"(-(-$[*])) ? (@ >= 2)", `[1,2,3]`, false, "[#2 | #3]"},
+		{"(+$[*]) ? (@ > 1).type()", `[1,2,3]`, false, `["number" | "number"]`}, {"strict (-$[*]) ? (@ < -4)", `[1,5,2,7]`, false, "[#-5 | #-7]"}, {"(-$.a[*])[0] ? (@ < -1)", `{"a":[1,5]}`, false, "[#-5]"},
+		{"(-$[*]).nokey", `[1,2]`, false, "[]"}, {"(-$[*]) ? (@ < -1).abs()", `[2,1,3]`, false, "[#2 | #3]"},
 		{"-(-$.a)", `{"a":"x"}`, true, ""}, {"-(-$.a)", `{"a":3}`, false, "[#3]"}, {"strict -(-$)", `[1]`, true, ""}, {"-(-$)", `[1,-2]`, false, "[#1 | #-2]"}, {"-(-$.a)", `{"a":[2,"x"]}`, true, ""},
 		{"$[*] ? (-(-@) == \"x\")", `["x",1]`, false, "[]"}, {"+(+$.a)", `{"a":null}`, true, ""}, {"-(+(-$.a))", `{"a":true}`, true, ""}, {"-(-(-$.a))", `{"a":2}`, false, "[#-2]"}, {"-(-$.a).type()", `{"a":1}`, true, ""},
 	} {
